@@ -1,6 +1,6 @@
 (* Props/C01.v — C01: tunnelled TCP payload is delivered intact, in order, to the right peer. *)
 From Coq Require Import List NArith Ascii Bool Lia.
-From SV Require Import Lib.Bytes Model.Wire Model.Chan Model.Stream
+From SV Require Import Model.StreamQuiet Proofs.Stream_quiet Lib.Bytes Model.Wire Model.Chan Model.Stream
   Proofs.Stream_basic Proofs.Stream_wrap Proofs.Stream_cb Proofs.Stream_reg Proofs.Stream_view
   Proofs.Stream_flow Proofs.Stream_props Gen.Consts.
 Import ListNotations.
@@ -62,6 +62,21 @@ Definition c01_eventual_delivery_full : Prop :=
   forall maxc lbs evs w f, run (world0 maxc lbs) evs = Ok w -> w_stale w = false ->
   vfz (view_of w Client f) = false -> vwfault (view_of w Client f) = false ->
   exists evs' w', run w evs' = Ok w' /\ dst_written w' f = app_read w f.
+
+(* (3b) The safety half of "eventually delivered": in EVERY reachable state in which nothing is
+   pending any more (StreamQuiet.quiescentb: both links and both queues empty, and no handler's
+   wait set contains a descriptor that an eager environment would report ready), every byte
+   read from the application has been handed to the destination socket, and vice versa —
+   unless a socket call of the receiving end failed (abort) or its connect is still pending.
+   What remains unproved of (3) is only that the loops, left alone, REACH such a state
+   (Stream_quiet.eager_drain_full: a decreasing variant for the drain). *)
+Theorem c01_quiescent_all_delivered :
+  forall maxc lbs evs w f,
+  run (world0 maxc lbs) evs = Ok w -> w_stale w = false -> quiescentb w = true ->
+  (s_conn (pS (sv w f)) = false -> s_fault (pS (sv w f)) = false -> dst_written w f = app_read w f) /\
+  (s_conn (pS (cl w f)) = false -> s_fault (pS (cl w f)) = false -> app_written w f = dst_read w f).
+Proof. exact q_c01_quiescent_all_delivered. Qed.
+Print Assumptions c01_quiescent_all_delivered.
 
 (* non-vacuity: a flow that carries bytes end to end in the model *)
 Example c01_ex_transfer :
